@@ -141,11 +141,25 @@ class ExprGen:
         return self.cmp(depth - 1)
 
     # --- shapes claripy special-cases
+    simple = False
+
     def constraint(self, ref: EnumRef | None = None):
         r = self.r
         k = r.below(100)
         if not self.bvs:
             return self.boolean(1)
+        if self.simple:
+            n = r.choice(self.bvs)
+            w = self.vars[n]
+            x = ["var", n]
+            k = r.below(100)
+            if k < 30:
+                return ["eq", x, self.const(w)]
+            if k < 45:
+                return ["ne", x, self.const(w)]
+            if k < 60:
+                return ["bor"] + [["eq", x, self.const(w)] for _ in range(r.range(2, 3))]
+            return [r.choice(["ult", "ule", "ugt", "uge"]), x, self.const(w)]
         n = r.choice(self.bvs)
         w = self.vars[n]
         x = ["var", n]
@@ -225,6 +239,7 @@ class HistoryGen:
         gen_vars = {n: w for n, w in self.vars.items() if n != self.flag} or self.vars
         self.eg = ExprGen(r, gen_vars, profile.get("ops_allowed"))
         self.eg_approx = ExprGen(r, gen_vars, profile.get("approx_ops_allowed", profile.get("ops_allowed")))
+        self.eg_approx.simple = bool(profile.get("approx_simple_constraints"))
         self.dry = Machine({"config": {"vars": self.varlist}, "ops": []}, None)
         self.ops = []
         self.recent = []  # recently used query expressions (re-query bias)
@@ -560,6 +575,9 @@ COMPOSITE_SHAPES = [
 ]
 # operations both the bit-vector and the interval domain express without known-unsound transfer functions
 APPROX_OPS = {"add", "sub", "and", "or", "xor", "extract", "concat", "zext", "sext", "ite"}
+# the part of it on which the interval domain was found to over-approximate on the unchanged tree (everything else runs into
+# the transfer-function / balancer unsoundness that C21, C24 and C25 describe and that is recorded under known findings)
+APPROX_CORE_OPS = {"add", "sub", "or", "xor", "ite"}
 
 PROFILES = {
     "C11": {
@@ -581,6 +599,20 @@ PROFILES = {
         "pickle_modes": ["replace"],
     },
     "C13approx": {
+        "frontends": [("SolverHybrid", 5), ("SolverVSA", 2), ("SolverReplacementVSA", 2)],
+        "kw_for": {"SolverHybrid": [{}, {}, {"approximate_first": True}]},
+        "hybrid_exact": [False, False, None],
+        "all_approx": True,
+        "approx_ops_allowed": APPROX_CORE_OPS,
+        "ops_allowed": APPROX_CORE_OPS,
+        "approx_simple_constraints": True,
+        "extra_pct": 10,
+        "length": (3, 25),
+        "weights": {"batch_eval": 2, "branch": 4, "simplify": 1},
+    },
+    # the wider approximate alphabet: not run by the registered check (it runs into the known findings A1..A4 all the
+    # time); kept to regenerate / re-examine them:  verif.py C13 --profile C13approx_wide --runs N
+    "C13approx_wide": {
         "frontends": [("SolverHybrid", 5), ("SolverVSA", 2), ("SolverReplacementVSA", 2)],
         "kw_for": {"SolverHybrid": [{}, {}, {"approximate_first": True}]},
         "hybrid_exact": [False, False, None],
